@@ -37,6 +37,15 @@ CLAIMS.update({
                 note=RT_NOTE, technique="Lean 4 proof (fold over labelled histories; iterator state-machine invariant) + differential correspondence", ref="§6 C17"),
 })
 
+CLAIMS.update({
+    "C06": dict(text="Theorems for all closures (observed by a wrapper proved not to change the run) and every Inv state: calls are made for dense indices 0,1,.. in order with exactly what the slices hold there (own handle, own cells, direct handle (idx, version)); run to the end every live entity exactly once (handles Nodup, count = len); only &mut-written cells change; Break ends the whole query across archetypes; without Break the count is the sum of len. Tie: iter/iterb/rows lines of harness/rt (per-call argument logs of the real macros; all slice/iterator paths compared).",
+                note=RT_NOTE, technique="Lean 4 proof (loop invariant, closure instrumentation by simulation) + differential correspondence", ref="§6 C06"),
+    "C07": dict(text="Theorem destroyLoop_spec for all closures: never UB, Inv afterwards, visited = reverse dense order of the population at loop start (at most once; exactly once when run to the end), (survivors ++ removed) ~ initial with removed = exactly the flagged entities, survivors keep handle and unwritten cells, unvisited prefix untouched, immediate global stop at Break/BreakDestroy, every direct handle handed to the closure is accepted in the storage the closure runs in and designates the visited entity (relies on the repaired per-step version read; the stale-version variant is refuted by a witness). Overflow panics are covered as one more way to stop. Tie: iterd lines of harness/rt with decision lists, direct handles probed after the loop.",
+                note=RT_NOTE, technique="Lean 4 proof (reverse-loop invariant: prefix intact, visited = reversed suffix, permutation) + differential correspondence", ref="§6 C07"),
+    "C18": dict(text="(a) unsafe-freedom: decided universally over the template-token table generated from the generator sources on every run (decide +kernel), tied end-to-end by compiling harness/rt (worlds + ~50 query invocations) and 558 generated programs under #![forbid(unsafe_code)] and by scanning every emitted stream in harness/mac. (c) auto traits: structural rule evaluated over the generated field table: world never Sync, Send iff components Send, handles Send+Sync regardless. (b) borrow envelope: PARTIAL by nature — decided on a signature-level model with one borrow rule over the generated API signature table for the full product holders x structural operations, validated program by program against rustc (unsound program must fail with a borrow/auto-trait error, sound twin must compile). A proof about rustc's borrow checker for all client programs is not possible with what is installed.",
+                note="Trusted: Lean kernel + standard axioms (decide +kernel over generated tables); tools/extract.py; rustc as the implementation of the envelope. Not formalised: Rust's type system / borrow checker.", technique="Lean 4 proof over translator-generated tables (tokens, fields, signatures) + rustc accept/reject corpus with twins", ref="§6 C18"),
+})
+
 NOT_YET = {}
 
 ALL = ["C%02d" % i for i in range(1, 20)]
